@@ -10,6 +10,7 @@ import Mathlib.Tactic.Linarith
 import Mathlib.Tactic.Ring
 import Mathlib.Tactic.SplitIfs
 import Mathlib.Tactic.Positivity
+import RQ.Lemmas.WorldK
 
 namespace RQ.Props.C11
 open RQ.Q
@@ -179,5 +180,26 @@ theorem futures_commission_nonneg (cfg : FutCostCfg) (isOpen : Bool) (price qty 
   unfold futCommission
   apply mul_nonneg _ h5
   split_ifs <;> simp only [zero_add] <;> positivity
+
+
+/-! ### inside the composed world (`RQ/Model/World.lean`) -/
+
+/-- **the world's fees are the published schedule**: the fees the composed world's cost decider stamps on the successive fills of one stock
+order are `chargeFills` from the order's remaining minimum (the minimum commission for an order the decider has not seen yet) plus each
+fill's tax — so every theorem of this file about `chargeFills` (the total is independent of how the order was split) is a statement about
+the TRADE events of whole runs; fees asked for other orders in between do not disturb the chain (`WorldK.tradeFee_other_key`). -/
+theorem world_fees_are_the_schedule (w : World) (wi : WIns) (hs : wi.cfg.isFuture = false) (id : Option Nat) (isBuy : Bool) (effect : Effect)
+    (fills : List (R × Int)) :
+    (RQ.Lemmas.WorldK.feeChain w wi id isBuy effect fills).1 =
+      List.zipWith (· + ·)
+        (chargeFills w.stockCost (w.commRem (id, wi.typeKey)) (fills.map (fun f => (f.1, R.ofInt f.2))))
+        (fills.map (fun f => stockTax w.stockCost wi.isCS (!isBuy) (f.1 * R.ofInt f.2))) :=
+  RQ.Lemmas.WorldK.feeChain_is_schedule w wi hs id isBuy effect fills
+
+/-- futures fees in the world are the contract's stateless by-money / by-volume schedule -/
+theorem world_future_fee_is_schedule (w : World) (wi : WIns) (hf : wi.cfg.isFuture = true) (id : Option Nat) (isBuy : Bool) (effect : Effect)
+    (q : Int) (p : R) (ct : Int) :
+    w.tradeFee wi id isBuy effect q p ct = (futCommission wi.futCost (effect == .open_) p (R.ofInt q) (R.ofInt ct) + 0, w) :=
+  RQ.Lemmas.WorldK.tradeFee_future w wi hf id isBuy effect q p ct
 
 end RQ.Props.C11
